@@ -8,7 +8,9 @@
    accepted-and-unanswered requests.  It answers only its OLDEST unanswered
    request, and only once the lower unit has completed that one; the answer
    carries the lower unit's result for that very request, goes to its requester
-   and names its number (the original ID).
+   and names its number (the original ID).  A reset of the buffer (optional, at most
+   once) discards the accepted requests that are still unanswered: they are never
+   answered, and a result the lower unit delivers for one of them later is ignored.
 
    `script` records what the lower unit did (which request it completed after how
    many had arrived, and the pauses): that is the part of a behaviour the driver
@@ -20,16 +22,19 @@ CONSTANTS NReq,      \* requests per behaviour
           Caps,      \* buffer sizes
           Kinds,     \* {"read", "write"}
           WhoPats,   \* subset of {"same", "alt", "pair"}: how requests are assigned to the requesters A and B
-          Quiets     \* BOOLEAN subset: {FALSE} = no pauses, {TRUE, FALSE} = optional pause between completions
+          Quiets,    \* BOOLEAN subset: {FALSE} = no pauses, {TRUE, FALSE} = optional pause between completions
+          Resets     \* BOOLEAN: TRUE = the buffer may be reset once (control port) while requests are outstanding
 
 VARIABLES cap, kinds, who,
           nAcc,      \* requests accepted so far (1..nAcc)
           pos,       \* pos[k] = completion position of request k at the lower unit, 0 = not completed
           nComp,     \* completions so far
-          nAns,      \* answers sent so far
+          base,      \* requests settled so far: answered, or dropped by a reset (the oldest open request is base+1)
+          dropped,   \* requests a reset discarded before they were answered: they never get an answer
+          resets,    \* resets so far
           answers,   \* sequence of answers at the top port
           script     \* sequence of lower-unit steps
-vars == <<cap, kinds, who, nAcc, pos, nComp, nAns, answers, script>>
+vars == <<cap, kinds, who, nAcc, pos, nComp, base, dropped, resets, answers, script>>
 
 Req == 1..NReq
 WhoOf(p) == [k \in Req |-> CASE p = "same" -> "A"
@@ -40,64 +45,80 @@ Whos == {WhoOf(p) : p \in WhoPats}
 Init == /\ cap \in Caps
         /\ kinds \in [Req -> Kinds]
         /\ who \in Whos
-        /\ nAcc = 0 /\ nComp = 0 /\ nAns = 0
+        /\ nAcc = 0 /\ nComp = 0 /\ base = 0 /\ dropped = {} /\ resets = 0
         /\ pos = [k \in Req |-> 0]
         /\ answers = <<>> /\ script = <<>>
 
 (* the buffer accepts the next request when it has room *)
 Accept == /\ nAcc < NReq
-          /\ nAcc - nAns < cap
+          /\ nAcc - base < cap
           /\ nAcc' = nAcc + 1
-          /\ UNCHANGED <<cap, kinds, who, pos, nComp, nAns, answers, script>>
+          /\ UNCHANGED <<cap, kinds, who, pos, nComp, base, dropped, resets, answers, script>>
 
-(* the lower unit completes any accepted, not yet completed request *)
+(* the lower unit completes any accepted, not yet completed request — also one that a reset has
+   dropped in the meantime (its late result must then be ignored) *)
 Complete(k) == /\ k <= nAcc /\ pos[k] = 0
                /\ pos' = [pos EXCEPT ![k] = nComp + 1]
                /\ nComp' = nComp + 1
                /\ script' = Append(script, [op |-> "complete", req |-> k, arrived |-> nAcc])
-               /\ UNCHANGED <<cap, kinds, who, nAcc, nAns, answers>>
+               /\ UNCHANGED <<cap, kinds, who, nAcc, base, dropped, resets, answers>>
 
 (* the lower unit pauses (only between two completions) *)
 Quiet == /\ TRUE \in Quiets
          /\ 0 < nComp /\ nComp < NReq
          /\ script[Len(script)].op # "quiet"
          /\ script' = Append(script, [op |-> "quiet", req |-> 0, arrived |-> nAcc])
-         /\ UNCHANGED <<cap, kinds, who, nAcc, pos, nComp, nAns, answers>>
+         /\ UNCHANGED <<cap, kinds, who, nAcc, pos, nComp, base, dropped, resets, answers>>
 
 (* the answer to request k: the lower unit's result for k, to k's requester, naming k *)
 Answer(k) == [req |-> k, kind |-> kinds[k], to |-> who[k], data |-> <<k, pos[k]>>]
 
 (* the buffer answers its oldest unanswered request once that one is completed *)
-Release == /\ nAns < nAcc
-           /\ pos[nAns + 1] # 0
-           /\ answers' = Append(answers, Answer(nAns + 1))
-           /\ nAns' = nAns + 1
-           /\ UNCHANGED <<cap, kinds, who, nAcc, pos, nComp, script>>
+Release == /\ base < nAcc
+           /\ pos[base + 1] # 0
+           /\ answers' = Append(answers, Answer(base + 1))
+           /\ base' = base + 1
+           /\ UNCHANGED <<cap, kinds, who, nAcc, pos, nComp, dropped, resets, script>>
 
-Next == Accept \/ Release \/ Quiet \/ \E k \in Req : Complete(k)
+(* a reset (control port) discards every accepted request that has not been answered; requests
+   accepted afterwards are served as before.  It is taken when nothing is ready to be answered
+   (the driver lets the buffer settle first) and while something is open and more is to come. *)
+Reset == /\ Resets /\ resets = 0
+         /\ base < nAcc /\ pos[base + 1] = 0 /\ nAcc < NReq
+         /\ dropped' = dropped \cup ((base + 1)..nAcc)
+         /\ base' = nAcc
+         /\ resets' = resets + 1
+         /\ script' = Append(script, [op |-> "reset", req |-> 0, arrived |-> nAcc])
+         /\ UNCHANGED <<cap, kinds, who, nAcc, pos, nComp, answers>>
+
+Next == Accept \/ Release \/ Quiet \/ Reset \/ \E k \in Req : Complete(k)
 Spec == Init /\ [][Next]_vars
 
 (* ---- what TLC checks on the specification itself ---- *)
-TypeOK == /\ nAns <= nComp /\ nComp <= nAcc /\ nAcc <= NReq
-          /\ nAcc - nAns <= cap
-          /\ Len(answers) = nAns
-(* answers come in exactly the acceptance order ... *)
-InOrder == \A i \in 1..Len(answers) : answers[i].req = i
+TypeOK == /\ base <= nAcc /\ nComp <= nAcc /\ nAcc <= NReq
+          /\ nAcc - base <= cap
+          /\ dropped \subseteq 1..base
+          /\ Len(answers) = base - Cardinality(dropped)
+(* answers come in exactly the acceptance order, one for every settled request that was not dropped ... *)
+InOrder == /\ \A i, j \in 1..Len(answers) : i < j => answers[i].req < answers[j].req
+           /\ {answers[i].req : i \in 1..Len(answers)} = (1..base) \ dropped
 (* ... each with the lower unit's result for that same request, its requester and kind *)
 OwnResult == \A i \in 1..Len(answers) :
-               /\ answers[i].data = <<i, pos[i]>> /\ pos[i] # 0
-               /\ answers[i].to = who[i] /\ answers[i].kind = kinds[i]
+               LET k == answers[i].req IN
+               /\ answers[i].data = <<k, pos[k]>> /\ pos[k] # 0
+               /\ answers[i].to = who[k] /\ answers[i].kind = kinds[k]
 (* the completion positions are a permutation of the completed requests: any order is possible *)
 PosInjective == \A j, k \in Req : (j # k /\ pos[j] # 0) => pos[j] # pos[k]
 (* one answer per step, never retracted, never ahead of the lower unit *)
 AnswerStep == [][\/ answers' = answers
                  \/ /\ Len(answers') = Len(answers) + 1
                     /\ SubSeq(answers', 1, Len(answers)) = answers
-                    /\ pos[Len(answers')] # 0]_vars
-(* reordering is real: some behaviour completes a younger request first and is still answered in order *)
-Complete_ == nAns = NReq
+                    /\ pos[answers'[Len(answers')].req] # 0]_vars
+(* a behaviour is complete when every request is settled and the lower unit has completed every
+   request (a dropped one's late result included) *)
+Complete_ == base = NReq /\ nComp = NReq
 
 Emit == Complete_ =>
-          PrintT(<<"BEHAVIOUR", ToJson([cap |-> cap, kinds |-> kinds, who |-> who,
+          PrintT(<<"BEHAVIOUR", ToJson([cap |-> cap, kinds |-> kinds, who |-> who, dropped |-> dropped,
                                         script |-> script, answers |-> answers])>>)
 =======================================================================
